@@ -98,7 +98,16 @@ def run_case(case):
             rows.append(row)
         for k in tcov:
             cov['type_class_fmt'][k] = 1
-        res.append({'name': 'res%d' % r, 'fields': fields, 'rows': rows, 'pk': pk})
+        missing = None
+        if rng.random() < 0.2:
+            # the schema declares its own missing-value markers (documented use of update_schema); nulls must survive
+            missing = rng.choice([['NA'], ['NA', '-'], ['', 'NA'], ['-']])
+            for row in rows:
+                for k_, v_ in row.items():
+                    if isinstance(v_, str) and v_ in missing and v_ != '':
+                        row[k_] = 'x' + v_
+            cov['config']['schema_missingValues/%s' % ('with_empty' if '' in missing else 'without_empty')] = 1
+        res.append({'name': 'res%d' % r, 'fields': fields, 'rows': rows, 'pk': pk, 'missing': missing})
     out = 'out_pkg' if kind == 'path' else 'out.zip'
     opts = {'format': fmt}
     if filehash:
@@ -107,7 +116,7 @@ def run_case(case):
         opts['temporal_format_property'] = 'outputFormat'
     cfg = {'format': fmt, 'kind': kind, 'add_filehash_to_path': filehash, 'temporal_format_property': tfp,
            'strip': strip, 'resources': [{'name': r['name'], 'fields': r['fields'], 'pk': r['pk'],
-                                          'nrows': len(r['rows'])} for r in res]}
+                                          'nrows': len(r['rows']), 'missingValues': r['missing']} for r in res]}
     cov['config']['%s/%s%s%s' % (fmt, kind, '/filehash' if filehash else '', '/tfp' if tfp else '')] = 1
     steps = []
     foreign = rng.random() < 0.3
@@ -116,6 +125,8 @@ def run_case(case):
         steps.append(lab.source(r['name'], r['fields'], r['rows']))
         if r['pk']:
             steps.append(d.set_primary_key(r['pk'], resources=r['name']))
+        if r.get('missing') is not None:
+            steps.append(d.update_schema(r['name'], missingValues=list(r['missing'])))
         if foreign:
             # the resource arrives describing ANOTHER serialisation (as if loaded from a ';'-delimited latin-1 file):
             # what the dumper records must describe what it writes
